@@ -65,6 +65,14 @@ impl<K: Copy + Ord> BTreeSet<K> {
         }
         ok
     }
+    /// elements of self that are also in `o`, ascending
+    pub fn intersection<'a>(&'a self, o: &'a Self) -> impl Iterator<Item = &'a K> + 'a {
+        self.m.keys().filter(move |k| o.contains(k))
+    }
+    /// elements of self that are not in `o`, ascending
+    pub fn difference<'a>(&'a self, o: &'a Self) -> impl Iterator<Item = &'a K> + 'a {
+        self.m.keys().filter(move |k| !o.contains(k))
+    }
     pub fn model_from_map(m: BTreeMap<K, ()>) -> Self {
         BTreeSet { m }
     }
@@ -81,5 +89,21 @@ impl<K: Copy + Ord> Eq for BTreeSet<K> {}
 impl<K: Copy + Ord> core::fmt::Debug for BTreeSet<K> {
     fn fmt(&self, _f: &mut core::fmt::Formatter<'_>) -> core::fmt::Result {
         Ok(())
+    }
+}
+impl<K: Copy + Ord> FromIterator<K> for BTreeSet<K> {
+    fn from_iter<I: IntoIterator<Item = K>>(it: I) -> Self {
+        let mut s = BTreeSet::default();
+        for k in it {
+            s.insert(k);
+        }
+        s
+    }
+}
+impl<K: Copy + Ord> Extend<K> for BTreeSet<K> {
+    fn extend<I: IntoIterator<Item = K>>(&mut self, it: I) {
+        for k in it {
+            self.insert(k);
+        }
     }
 }
